@@ -219,6 +219,9 @@ func (g *reqGen) mintedItem(e elem, pos int, kind, class string, src source, siz
 	if cv.Tail != "" && strings.HasSuffix(v, cv.Tail) {
 		p.Chars = cv.Name
 	}
+	if src.Kind == "query" && g.rng.IntN(5) == 0 {
+		p = g.repeated(p, repeatVariants[g.rng.IntN(len(repeatVariants))], user, pass)
+	}
 	if src.Kind == "header" && src.Scheme != "" && g.rng.IntN(4) == 0 {
 		// more than one blank between scheme and credentials
 		p.Sep = []string{"  ", "   "}[g.rng.IntN(2)]
@@ -227,6 +230,51 @@ func (g *reqGen) mintedItem(e elem, pos int, kind, class string, src source, siz
 		p.SchemeOnWire = []string{strings.ToLower(src.Scheme), strings.ToUpper(src.Scheme)}[g.rng.IntN(2)]
 	}
 	return p
+}
+
+// repeated: the query parameter of p is sent a second time as rv says. Another value is minted for rejected credentials
+// only (same kind and class: whichever occurrence an implementation reads, it is rejected); valid and large values are
+// repeated unchanged resp. empty.
+func (g *reqGen) repeated(p placement, rv repeatVariant, user, pass string) placement {
+	if p.Slot[0] != 'Q' || strings.TrimSpace(p.Value) == "" {
+		return p
+	}
+	second := rv.Second
+	if second == "other" && (classGroup(p.Kind, p.Class) == "valid" || p.Chars != "") {
+		second = "equal"
+	}
+	if p.Size != "" {
+		second = "empty"
+	}
+	for _, v := range repeatVariants {
+		if v.Second == second && v.Apart == rv.Apart {
+			p.Repeat = v.Name
+		}
+	}
+	switch second {
+	case "equal":
+		p.RepeatValue = p.Value
+	case "other":
+		p.RepeatValue = g.m.mintWith(p.Kind, p.Class, g.sub(), user, pass, 0, "")
+	}
+	return p
+}
+
+// repeatedItem: as item, the query parameter sent twice.
+func (g *reqGen) repeatedItem(e elem, pos int, kind, class string, src source) placement {
+	p := g.sizedItem(e, pos, kind, class, src, "")
+	user, pass := e.basicUser()
+	return g.repeated(p, repeatVariants[g.rng.IntN(len(repeatVariants))], user, pass)
+}
+
+// querySource: a query parameter the element reads credentials from.
+func querySource(e elem) (source, bool) {
+	for _, s := range e.proto().Sources {
+		if s.Kind == "query" {
+			return s, true
+		}
+	}
+	return source{}, false
 }
 
 // methods: the request method is a dimension of its own for every credential location. The statement (and the
@@ -416,6 +464,28 @@ func (g *reqGen) requests(c chain, n int) []lreq {
 			add(lreq{Recipe: "single-endpoint-status", Items: []placement{g.sizedItem(e, p, "jwt", fmt.Sprintf("metahttp%d", code), g.pickSource(e), "")}})
 		}
 	}
+	// dates far outside of every integer range in a correctly signed JWT resp. in the answer of the authorization server
+	for _, p := range ps {
+		e := c.Elems[p]
+		if t := e.proto().Type; t == "jwt" || t == "intro" {
+			cl := []string{"nbfoutofrange", "expoutofrange"}[g.rng.IntN(2)]
+			add(lreq{Recipe: "single-invalid", Items: []placement{g.item(e, p, nativeKind[t], cl, g.pickSource(e))}})
+		}
+	}
+	// the credential query parameter sent more than once: a rejected value (second occurrence empty, equal or another
+	// rejected one, next to the first or apart from it) and, sometimes, a valid one
+	for _, p := range ps {
+		e := c.Elems[p]
+		src, ok := querySource(e)
+		if !ok {
+			continue
+		}
+		k := nativeKind[e.proto().Type]
+		add(lreq{Recipe: "repeated-query-parameter-invalid", Items: []placement{g.repeatedItem(e, p, k, g.rejectClass(k), src)}})
+		if g.rng.IntN(3) == 0 {
+			add(lreq{Recipe: "repeated-query-parameter-valid", Items: []placement{g.repeatedItem(e, p, k, "valid", src)}})
+		}
+	}
 	// credentials of 4 KiB, 8 KiB, 64 KiB: a valid and a rejected one at any position and source
 	for _, class := range []string{"valid", ""} {
 		p := ps[g.rng.IntN(len(ps))]
@@ -586,6 +656,12 @@ func (r lreq) wire(path string, envoy bool) wire {
 			cookies = append(cookies, name+"="+it.Value)
 		case 'Q':
 			q = append(q, name+"="+queryEscape(it.Value))
+			if it.Repeat != "" {
+				if repeatVariantByName(it.Repeat).Apart {
+					q = append(q, "page=2")
+				}
+				q = append(q, name+"="+queryEscape(it.RepeatValue))
+			}
 		case 'B':
 			body = append(body, name+"="+queryEscape(it.Value))
 			jsonBody[name] = it.Value
